@@ -215,8 +215,19 @@ func (r *repository) addRulesTo(tree *radixtree.Tree[rule.Route], rules []rule.R
 }
 
 func (r *repository) removeRulesFrom(tree *radixtree.Tree[rule.Route], tbdRules []rule.Rule) error {
+	// deleting a path removes all routes of the rule registered for it. A rule may list a path more
+	// than once, which must not be attempted to be deleted a second time
+	done := make(map[string]struct{})
+
 	for _, rul := range tbdRules {
 		for _, route := range rul.Routes() {
+			key := rul.ID() + "\x00" + route.Path()
+			if _, ok := done[key]; ok {
+				continue
+			}
+
+			done[key] = struct{}{}
+
 			if err := tree.Delete(
 				route.Path(),
 				radixtree.ValueMatcherFunc[rule.Route](func(route rule.Route) bool {
